@@ -289,7 +289,7 @@ POST_LAW_CITATION_REGEX = rf"""
     (?:\(
         # Consol., McKinney, Deering, West, LexisNexis, etc.
         (?P<publisher>
-            [A-Z][a-z]+\.?
+            [A-Z][A-Za-z]+\.?
             (?:\ Supp\.)?
         )?
         \ ?
